@@ -309,10 +309,25 @@ func runProperty(P *Prog, prop, tier string, seed int, verif string) *propResult
 	}
 	dischargeAll(smokes, runCfg{dir: scratch + "/smoke", timeout: 2, seed: seed, order: []string{"z3-new"}, workers: runtime.NumCPU()})
 	var smokeFailed []string
+	retAll, retBad := map[string]int{}, map[string]int{}
 	for _, o := range smokes {
+		isRet := strings.Contains(o.Name, "/smoke/return#")
+		if isRet {
+			retAll[o.Func]++
+		}
 		if o.Status != "discharged" {
+			if isRet {
+				retBad[o.Func]++
+				continue
+			}
 			smokeFailed = append(smokeFailed, o.Name)
-			res.lines = append(res.lines, fmt.Sprintf("govc: warning: vacuity check refuted at %s (unreachable code or contradictory assumptions)", o.Name))
+			res.lines = append(res.lines, fmt.Sprintf("govc: warning: vacuity check refuted at %s (contradictory assumptions)", o.Name))
+		}
+	}
+	for f, n := range retAll {
+		if retBad[f] == n {
+			smokeFailed = append(smokeFailed, f+"/smoke/return#*")
+			res.lines = append(res.lines, fmt.Sprintf("govc: warning: no return of %s is reachable under its contract (vacuous)", f))
 		}
 	}
 
